@@ -134,6 +134,19 @@ def run(ctx: Any, prog: Program) -> None:
                               f'indentation option `{ast.unparse(s.node)}` is written inside a quoted string: the token stream would depend on it',
                               text=f'quoted slot {ast.unparse(s.node)} indent-free')
                     if not content and not uses_indent:
+                        # a slot unpacked from `escape_text(<several content strings joined by SEP>).partition/split(SEP)`: the separator is an
+                        # ordinary character a name may contain, so the pieces are cut in the wrong place
+                        split_def = None
+                        if isinstance(s.node, ast.Name):
+                            for a in ast.walk(fn):
+                                if isinstance(a, ast.Assign) and isinstance(a.targets[0], (ast.Tuple, ast.List)) and any(isinstance(e, ast.Name) and e.id == s.node.id for e in a.targets[0].elts) \
+                                        and isinstance(a.value, ast.Call) and isinstance(a.value.func, ast.Attribute) and a.value.func.attr in ('partition', 'rpartition', 'split', 'rsplit') \
+                                        and _derives_from_content(a.value.func.value):
+                                    split_def = a
+                        if split_def is not None:
+                            ctx.check('C01.R1', False, kv, split_def, f'`{ast.unparse(split_def)[:90]}`: name and value are escaped as one string and separated again on `{ast.unparse(split_def.value.args[0]) if split_def.value.args else "whitespace"}`, '
+                                      'a character that escape_text leaves alone and that a name may contain itself - such a name is cut in the wrong place', text=f'{s.position} slot {ast.unparse(s.node)} recovered by splitting')
+                            continue
                         raise AnalysisError(f'{qual}:{em.node.lineno}: quoted slot `{ast.unparse(s.node)}` is neither tree content nor an indentation option')
                 else:
                     ctx.check('C01.R2', not content, kv, s.emit,
@@ -260,6 +273,16 @@ def run(ctx: Any, prog: Program) -> None:
                           'U+2028/9), so text that serialise() writes is rejected', text=f'content rejection `{ast.unparse(a)[:50]}`')
             else:
                 ctx.shape('C01.R7', False, kv, a, f'content rejection test `{ast.unparse(a)[:70]}` is not an enumerated form', text=f'content rejection `{ast.unparse(a)[:50]}`')
+    # ... and it never silently stops or skips on what a string contains: every character can occur in a name the writer produced
+    for n in walk_no_nested(parse):
+        if not (isinstance(n, ast.If) and n.body and isinstance(n.body[-1], (ast.Break, ast.Continue, ast.Return))):
+            continue
+        looks = [x for x in ast.walk(n.test) if isinstance(x, ast.Call) and isinstance(x.func, ast.Attribute) and isinstance(x.func.value, ast.Name) and x.func.value.id in content_vars] + \
+                [x for x in ast.walk(n.test) if isinstance(x, ast.Compare) and isinstance(x.ops[0], (ast.In, ast.NotIn)) and isinstance(x.comparators[0], ast.Name) and x.comparators[0].id in content_vars] + \
+                [x for x in ast.walk(n.test) if isinstance(x, ast.Subscript) and isinstance(x.value, ast.Name) and x.value.id in content_vars]
+        for lk in looks:
+            ctx.check('C01.R7', False, kv, lk, f'parse leaves the token loop ({type(n.body[-1]).__name__.lower()}) when `{ast.unparse(n.test)[:70]}`: a name or value with that content is produced by serialise() '
+                      'like any other, and everything after it is silently dropped', text=f'content-dependent {type(n.body[-1]).__name__.lower()} `{ast.unparse(lk)[:40]}`')
     if n_rej < 4:
         raise AnalysisError(f'Keyvalues.parse: only {n_rej} content rejection tests found (4 confirmed by hand: LF and CR, for names and for values)')
 
@@ -272,6 +295,8 @@ def _in_orelse(ifnode: ast.If, node: ast.AST, mod: Any) -> bool:
 
 
 MUTANTS = [
+    {'id': 'leaf_escaped_jointly_and_split', 'file': 'keyvalues.py', 'find': """            file.write(f'{cur_indent}"{escape_text(self._real_name)}" "{escape_text(self._value)}"\\n')\n\n    serialize""", 'replace': """            name, _, value = escape_text(f'{self._real_name}\\x1f{self._value}').partition('\\x1f')\n            file.write(f'{cur_indent}"{name}" "{value}"\\n')\n\n    serialize""", 'expect': 'C01.R1'},
+    {'id': 'parse_stops_at_nul_name', 'file': 'keyvalues.py', 'find': "            if token_type is STRING:   # \"string\"\n", 'replace': "            if token_type is STRING:   # \"string\"\n                if token_value.startswith('\\x00'):\n                    break\n", 'expect': 'C01.R7'},
     {'id': 'key_newline_test_by_splitlines', 'file': 'keyvalues.py', 'find': "                if not newline_keys and ('\\n' in token_value or '\\r' in token_value):", 'replace': "                if not newline_keys and len(token_value.splitlines()) > 1:", 'expect': 'C01.R7'},
     {'id': 'root_test_by_value', 'file': 'keyvalues.py', 'find': "            if self._real_name is None:\n                # If the name is None, we just output the children\n                # without a \"Name\" { } surround. These Keyvalue objects represent the root.\n                for child in self._value:", 'replace': "            if not self._real_name:\n                # If the name is None, we just output the children\n                # without a \"Name\" { } surround. These Keyvalue objects represent the root.\n                for child in self._value:", 'expect': 'C01.R6'},
     {'id': 'name_precomputed_ok', 'file': 'keyvalues.py', 'find': "                file.write(f'{cur_indent}\"{escape_text(self._real_name)}\"\\n')", 'replace': "                name = escape_text(self._real_name)\n                file.write(f'{cur_indent}\"{name}\"\\n')", 'expect': None, 'note': 'negative control: escaped name held in a local'},
